@@ -203,6 +203,17 @@ func runOnce(g G, ord []int, x *explore.X, split int) (f *fail, signature string
 			}
 			if split > 0 && k+1 == split {
 				ms.Process() // whatever it says about the incomplete set
+				// ... and the by-name questions are asked of what is there so far
+				for _, mm := range []map[string]*yang.Module{ms.Modules, ms.SubModules} {
+					for _, m := range mm {
+						for _, id := range m.Identity {
+							for _, nm := range g.Names {
+								id.IsDefined(nm)
+								id.GetValue(nm)
+							}
+						}
+					}
+				}
 			}
 		}
 		errs := ms.Process()
@@ -270,6 +281,20 @@ func runOnce(g G, ord []int, x *explore.X, split int) (f *fail, signature string
 			if problem != "" {
 				f = &fail{"values-differ-from-reverse-reachability", fmt.Sprintf("%s values %v", key(i), wantL), fmt.Sprintf("%v (%s)", gotL, problem)}
 				return
+			}
+			// asked by name, the identity answers as its list does
+			for _, nm := range append(append([]string{}, g.Names...), "no-such-identity") {
+				defined := false
+				for v := range want {
+					if v.Name == nm {
+						defined = true
+					}
+				}
+				gv := id.GetValue(nm)
+				if id.IsDefined(nm) != defined || (gv != nil) != defined || (gv != nil && (!want[gv] || gv.Name != nm)) {
+					f = &fail{"by-name-accessors-differ-from-values", fmt.Sprintf("%s: %q derived=%v", key(i), nm, defined), fmt.Sprintf("IsDefined=%v GetValue=%v", id.IsDefined(nm), gv != nil)}
+					return
+				}
 			}
 			sig = append(sig, key(i)+"="+strings.Join(gotL, ","))
 			// the identityref leaf points at the identity object its base names
